@@ -391,6 +391,53 @@ def x_to_e(P, R_, run_):
                 idx0 = m.kids[1].strip().cv
     if idx0 is None:
         raise AnalysisBroken("_vnacal_new_solve_internal: initial value of the error-term index not found")
+    # E-EXTENT: the destination array holds the error terms of the *input* layout while it is filled (all systems plus
+    # the outside leakage terms) and those of the *output* layout after the E12 conversion: its declared extent must
+    # cover both for every type and shape
+    dvd = [v for v in f.vardecls() if v.get("decl") == dest]
+    dim = (dvd[0].d.get("_dims") or [None])[0] if dvd else None
+    if dim is None or not hasattr(dim, "k") or dim.k == "ConstSize":
+        raise AnalysisBroken("_vnacal_new_solve_internal: declaration of the error-term array not found")
+    in_locals, out_locals = set(), set()
+    from ..canon import Canon as _Canon
+    cnf = _Canon(f)
+    for v in f.vardecls():
+        if v.kids and (v.ctype or "").replace("const ", "") == "int":
+            pth = cnf.path(v.kids[0])
+            if "vl_error_terms" in pth or any(x.k == "DeclRefExpr" and x.refdecl in in_locals for x in v.kids[0].walk()):
+                (in_locals if cnf.single_def(v.get("decl")) is not None else out_locals).add(v.get("decl"))
+
+    def _evdim(e, E_in, E_out):
+        e = e.strip()
+        if e.k == "IntegerLiteral":
+            return e.val
+        if e.k == "DeclRefExpr":
+            if e.refdecl in in_locals:
+                return E_in
+            if e.refdecl in out_locals:
+                return E_out
+            raise AnalysisBroken("extent of the error-term array depends on '%s'" % e.refname)
+        if e.k == "BinaryOperator":
+            a, b = _evdim(e.kids[0], E_in, E_out), _evdim(e.kids[1], E_in, E_out)
+            return {"+": a + b, "-": a - b, "*": a * b, ">=": int(a >= b), ">": int(a > b), "<": int(a < b), "<=": int(a <= b)}[e.op]
+        if e.k == "ConditionalOperator":
+            return _evdim(e.kids[1], E_in, E_out) if _evdim(e.kids[0], E_in, E_out) else _evdim(e.kids[2], E_in, E_out)
+        raise AnalysisBroken("extent of the error-term array is not an integer expression of the error-term counts")
+    bad_ext = None
+    for tname, (fam, full, percol) in FAMILY.items():
+        for (R, C) in shapes(fam, 3):
+            E_in = run_.layout(tname, R, C)["vl_error_terms"]
+            E_out = run_.layout("VNACAL_E12", R, C)["vl_error_terms"] if tname == "_VNACAL_E12_UE14" else E_in
+            ext = _evdim(dim, E_in, E_out)
+            if ext < max(E_in, E_out) and bad_ext is None:
+                bad_ext = "%s %dx%d: the array is declared with %d elements (%s) but is filled with the %d terms of the solved " \
+                          "layout%s" % (tname, R, C, ext, dim.text()[:50], E_in,
+                                        " and holds %d terms after the E12 conversion" % E_out if E_out != E_in else "")
+    kx = "R30|%s|_vnacal_new_solve_internal|e-extent" % SF
+    if bad_ext is None:
+        R_.ok(kx, set(PROPS) | {"C03"})
+    else:
+        R_.violated(Finding("R30", set(PROPS) | {"C03"}, SF, "_vnacal_new_solve_internal", "e-extent", bad_ext, dvd[0].line))
     for tname, (fam, full, percol) in FAMILY.items():
         key = "R30|%s|_vnacal_new_solve_internal|x-to-e:%s" % (SF, tname)
         bad = None
